@@ -48,6 +48,7 @@ type config struct {
 	Senders     int      `json:"concurrent_senders"`
 	Failure     string   `json:"startup_failure"` // "" | mode | endpoint | compression
 	WindowMS    int      `json:"retry_window_ms"`
+	GlacialMS   int      `json:"glacial_upstream_ms"`
 }
 
 // ---------------------------------------------------------------------------------------------
@@ -168,6 +169,10 @@ func (w *world) upstreamHandler(rw http.ResponseWriter, req *http.Request) {
 	switch script {
 	case "slow":
 		time.Sleep(20 * time.Millisecond) // upstream latency, not synchronisation
+	case "glacial":
+		// a delivery that takes seconds: anything in the extension that stops waiting for the flush after a
+		// few seconds (a "safety" timeout) asks for the next event while this request is still in flight
+		time.Sleep(time.Duration(w.cfg.GlacialMS) * time.Millisecond)
 	case "retry":
 		if n == 0 {
 			status = 503
@@ -517,7 +522,7 @@ func runExecution(r *mon.Run, cfg config) {
 	r.Event("bodies_retried", retried)
 	r.Event("bodies_abandoned", dropped)
 	r.Event("get_next", len(gets))
-	if obligations > 0 && (retried > 0 || dropped > 0 || contains(cfg.Upstream, "slow")) {
+	if obligations > 0 && (retried > 0 || dropped > 0 || contains(cfg.Upstream, "slow") || contains(cfg.Upstream, "glacial")) {
 		r.Nontrivial(fmt.Sprintf("inv%d up%v init%v late%v senders%d retried%v dropped%v", cfg.Invocations, cfg.Upstream, cfg.InitData, cfg.LateData, cfg.Senders, retried > 0, dropped > 0))
 	}
 	if r.WantSample() {
@@ -585,6 +590,14 @@ func TestCheck(t *testing.T) {
 		}
 		if (i+shard)%4 == 3 {
 			cfg.Failure = []string{"mode", "endpoint", "compression"}[rng.Intn(3)]
+		}
+		// one execution per run with an upstream that needs several seconds (under the forwarder's 10 s client timeout)
+		if i == 0 && shard < r.Pick(1, 4) {
+			cfg.Failure = ""
+			cfg.Upstream = []string{"glacial", "fast"}
+			cfg.Invocations = 2
+			cfg.InitData = false
+			cfg.GlacialMS = []int{6500, 8500, 5200, 7400}[shard%4]
 		}
 		runExecution(r, cfg)
 		if r.Violations() > 6 {
